@@ -79,6 +79,17 @@ pub fn tcp_events(tag: &str, f: &Flow, c: u32, rich: bool) -> Vec<Event> {
         seg.options = vec![1u8; n];
         add(format!("data-abc-options{}", n), f.tcp_seg(&seg), true);
     }
+    // link-layer trailer after the IP datagram (Ethernet padding): not stream data
+    {
+        let mut fr = f.tcp(0xfffffffe, ok, F_PSH | F_ACK, b"ab");
+        fr.extend_from_slice(&[0u8; 6]);
+        add("data-ab-padded".into(), fr, true);
+        let mut fr = f.tcp(1000, ok, F_FIN | F_ACK, b"");
+        fr.extend_from_slice(&[0xffu8; 6]);
+        add("finack-padded".into(), fr, false);
+    }
+    // a second complete request right after the first one (keep-alive)
+    add("data-http-second".into(), f.tcp(1000 + HTTP_REQ.len() as u32, ok, F_PSH | F_ACK, b"HEAD /favicon.ico HTTP/1.1\r\nHost: a\r\n\r\n"), true);
     add("ack".into(), f.tcp(1000, ok, F_ACK, b""), false);
     add("rst".into(), f.tcp(1000, ok, F_RST, b""), false);
     add("rst-ack".into(), f.tcp(1000, ok, F_RST | F_ACK, b""), false);
